@@ -705,7 +705,7 @@ func RunPipe(r *Run) {
 		var prev *simdjson.ParsedJson
 		for i, d := range docs {
 			var o parseOutcome
-			hookTap = syncDeadlockTap()
+			setTap(syncDeadlockTap())
 			err := safely(func() error {
 				var ru *simdjson.ParsedJson
 				if reuse {
@@ -716,7 +716,7 @@ func RunPipe(r *Run) {
 				o = outcomeOf(pj, perr)
 				return nil
 			})
-			hookTap = nil
+			setTap(nil)
 			if wp, ok := err.(*WalkPanic); ok {
 				if ds, isDL := wp.Val.(deadlockSentinel); isDL {
 					r.violate("M-term", "deadlock-sync", fmt.Sprintf("free-running parse #%d (%s): %s", i, cfgs[i], ds.detail))
@@ -791,7 +791,9 @@ func RunPipeRace(r *Run) {
 		doc, desc := genPipeDoc(r, cfg.ND)
 		ref := refFor(doc, cfg.ND)
 		var o parseOutcome
+		setTap(syncDeadlockTap())
 		err := safely(func() error {
+			defer func() { setTap(nil) }()
 			var ru *simdjson.ParsedJson
 			if c.Intn("reuse", 2) == 1 {
 				ru = prev
@@ -801,6 +803,10 @@ func RunPipeRace(r *Run) {
 			return nil
 		})
 		if wp, ok := err.(*WalkPanic); ok {
+			if ds, isDL := wp.Val.(deadlockSentinel); isDL {
+				r.violate("M-term", "deadlock-sync", fmt.Sprintf("free-running parse #%d (%s): %s", i, cfg, ds.detail))
+				return
+			}
 			o.panicV = wp
 		}
 		judgeOutcome(r, doc, cfg, o, ref, fmt.Sprintf("free-running parse #%d under -race (%s, GOMAXPROCS %d)", i, cfg, procs), len(doc) <= 1<<17)
